@@ -92,10 +92,10 @@ instance (cfg : Cfg) (m : Mem) (vol : PImg) : Decidable (NoSplit cfg m vol) :=
 /-- the weaker condition: sinking into a NEW tree may split leaves at will; only the LIVE tree must
     be one leaf entered directly with room for the properties (an in-place split of the live tree is
     finding C01-live-tree-in-place) -/
-def NoLiveSplit (cfg : Cfg) (m : Mem) (vol : PImg) : Prop := m.proot ≠ 0 → m.ptop = false ∧ NoSplit cfg m vol
+def NoLiveSplit (cfg : Cfg) (m : Mem) (vol : PImg) : Prop := m.proot ≠ 0 → cProps m ≠ [] → m.ptop = false ∧ NoSplit cfg m vol
 
 instance (cfg : Cfg) (m : Mem) (vol : PImg) : Decidable (NoLiveSplit cfg m vol) :=
-  inferInstanceAs (Decidable (_ → _))
+  inferInstanceAs (Decidable (_ → _ → _))
 
 /-! ### segments and trees of the volatile image -/
 
@@ -193,7 +193,7 @@ theorem leaf1_empty (r : Nat) : Leaf1 (emptyTree r) [] r := ⟨rfl, rfl⟩
 
 theorem pblk_treeA (cfg : Cfg) (hcap1 : 1 ≤ cfg.leafCap) (m : Mem) (vol : PImg) (ps : PS) (nd : Nat) (hsk : SameKey p0.hdr ps.pm)
     (hnp : min ps.bm ps.pm.nextPage = nd) (hpos : 0 < nd) (hlive : live = m.proot) (hvol : vol.trees = p0.trees)
-    (hns : m.proot ≠ 0 → top = false ∧ NoSplit cfg m vol) (hprops : ∀ q ∈ cProps m, q ∈ allowed) (hcov0 : live = 0 → covered = [])
+    (hns : m.proot ≠ 0 → cProps m ≠ [] → top = false ∧ NoSplit cfg m vol) (hprops : ∀ q ∈ cProps m, q ∈ allowed) (hcov0 : live = 0 → covered = [])
     (htree : live ≠ 0 → ∃ t, treeFind p0 live = some t ∧ TreeOK allowed covered top t) :
     ∃ nd' effs, PBlk p0 live allowed covered top lo nd ps (treeA cfg m vol ps).1 effs nd' (treeA cfg m vol ps).2.1 ∧
       (∀ e ∈ effs, TreeE e) ∧
@@ -249,7 +249,7 @@ theorem pblk_treeA (cfg : Cfg) (hcap1 : 1 ≤ cfg.leafCap) (m : Mem) (vol : PImg
           exact ⟨by rw [hflat2]; simpa using hq, (hbl2 q).mpr (Or.inl hq)⟩
     · -- the live tree: one leaf entered directly, with room
       have hl : live ≠ 0 := by rw [hlive]; exact hr
-      obtain ⟨htf, hns'⟩ := hns hr
+      obtain ⟨htf, hns'⟩ := hns hr hp
       obtain ⟨t0, hf0, hok0⟩ := htree hl
       obtain ⟨X0, hsh0, hal0, hcv0⟩ := hok0.shape
       subst htf
@@ -371,7 +371,7 @@ theorem pages_post {cfg : Cfg} {T : List Tx} {fs : FS} {m : Mem} {cs : List CTx}
     omega
   obtain ⟨nd2, teffs, btree, hTE, hcase1, hcase2⟩ :=
     pblk_treeA (p0 := fs.pd) (live := m.proot) (lo := frontier fs.pd) (allowed := allProps T) (covered := covered) (top := (scan cs).ptop) cfg hcap1 m fs.pv (segA m (m.ps fs.pv)).2.1 nd1
-      bseg.sk bseg.np hpos rfl (by rw [hpv]) (fun hr => by rw [← h.mptop]; exact hns hr) hprops (by rw [hlive]; exact hc2) (by rw [hlive]; exact hc3)
+      bseg.sk bseg.np hpos rfl (by rw [hpv]) (fun hr hp => by rw [← h.mptop]; exact hns hr hp) hprops (by rw [hlive]; exact hc2) (by rw [hlive]; exact hc3)
   obtain ⟨ba, _, hef⟩ := pblk_alloc_eq (p0 := fs.pd) (live := m.proot) (lo := frontier fs.pd) (allowed := allProps T) (covered := covered) (top := (scan cs).ptop)
     (treeA cfg m fs.pv (segA m (m.ps fs.pv)).2.1).2.1 btree.sk btree.np
   have bw := pblk_write (p0 := fs.pd) (live := m.proot) (lo := frontier fs.pd) (allowed := allProps T) (covered := covered) (top := (scan cs).ptop) ba.sk ba.np .stats
